@@ -1,5 +1,5 @@
 (** C09 — statements of the property, kept at full strength. Those still listed in NOT_PROVED of
-    lib/props/c09.py (file_visit_sees_stable_mailboxes_stmt) are unproved; the others are proved in
+    lib/props/c09.py are unproved (file_visit_at_most_once_stmt lives in Proofs/ConcFileVisit.v); the others are proved in
     Proofs/ConcMemLin.v, ConcMemLinEnf.v, ConcMemIds.v, ConcMemStays.v. They were first kept
     here at full strength; the forced-schedule correspondence check and the runner's
     linearizability oracle (the same [seq_exec]) test them on every run. Each has a sanity
@@ -27,16 +27,6 @@ Definition mem_linearizable_with_enforcer_stmt : Prop :=
   forall cap max ops sched s,
     run (init_sys cap (Some max) [] enf0 ops) sched = Fin s ->
     snd (seq_run true cap [] (map lop (s_log s))) = map lres (s_log s).
-
-Definition freach_like (s0 s' : fsys) : Prop := exists sched', frun s0 sched' = FFin s'.
-
-(** A mailbox that holds a message during the whole walk is visited exactly once. *)
-Definition file_visit_sees_stable_mailboxes_stmt : Prop :=
-  forall g ops sched s t l mb,
-    frun (finit g ops) sched = FFin s ->
-    nth_error (f_thr s) t = Some (FDone (RVisit l)) ->
-    (forall s', freach_like (finit g ops) s' -> fmsgs mb s' <> []) ->
-    length (filter (fun e => fst e =? mb) l) = 1%nat.
 
 (** No two deliveries to one mailbox receive the same id. *)
 Definition mem_ids_distinct_stmt : Prop :=
